@@ -8,6 +8,7 @@ R2 rollback: the handler that undoes a partially built service catches every exc
    same peer set
 R3 uniqueness checks dominate the first insert (node sliver, top-level service sliver, backend add_node)
 R4 composite operations (>= 2 creation steps, later steps fed with derived data) need compensation - reported as findings
+R5 the creation step that receives the caller's **kwargs is the first creation step of a composite (or is compensated)
 """
 import ast
 
@@ -337,6 +338,8 @@ def run(prog, rep):
         rep.violation('R3', loc(nxpg.module, an), 'NetworkXPropertyGraph.add_node', 'no existence test before the insert', 'a duplicate node id is inserted')
 
     # ---- R4 ----
+    rep.rule('R5', 'in a composite operation the step that receives the caller-supplied properties comes first', floor=3)
+    check_caller_input_first(prog, rep, 'R5', summ)
     for key, (c, f) in sorted(summ.methods.items(), key=lambda kv: (kv[0][0], kv[0][1])):
         if key[1].startswith('_') and key[1] != '__init__':
             continue
@@ -382,6 +385,45 @@ def run(prog, rep):
                     (isinstance(c, ast.Call) and (call_name(c) or '').endswith('_sliver') and call_name(c) != name))
             comps.append(f'{name}: {n} mutation steps')
     rep.note('graph-level writers are multi-step without compensation (atomic only if ids are fresh and parents exist - not decided): ' + '; '.join(sorted(comps)))
+
+
+def composite_steps(summ, c, f):
+    """creation steps (calls that add an element to the model) of a user-layer method, in source order"""
+    steps = []
+    for call in sorted([x for x in walk_no_nested(f) if isinstance(x, ast.Call)], key=lambda x: (x.lineno, x.col_offset)):
+        is_step = is_new_element(call)
+        cn = call_name(call)
+        if not is_step and cn in ('add_node', 'add_network_service', 'add_interface', 'add_component', 'add_link', 'add_child_interface') \
+                and isinstance(call.func, ast.Attribute):
+            recv = ast.unparse(call.func.value)
+            if 'graph' not in recv.lower():     # graph_model.* are primitives, derived_graph.* is networkx
+                is_step = True
+        if is_step:
+            steps.append(call)
+    return steps
+
+
+def check_caller_input_first(prog, rep, rule, summ=None):
+    """A composite operation hands the caller's free-form properties (**kwargs) to one of its creation steps; that step
+    validates them and may reject the call. It must be the first creation step, otherwise a rejected call leaves the
+    elements of the earlier steps (e.g. a service port without a peer) in the model."""
+    summ = summ or Summaries(prog)
+    for key, (c, f) in sorted(summ.methods.items(), key=lambda kv: (kv[0][0], kv[0][1])):
+        if key[1] == '__init__' or key[0] == 'ModelElement' or f.args.kwarg is None:
+            continue
+        kw = f.args.kwarg.arg
+        steps = composite_steps(summ, c, f)
+        if len(steps) < 2:
+            continue
+        fq = f'{c.name}.{key[1]}'
+        carriers = [i for i, st in enumerate(steps) if any(k.arg is None and isinstance(k.value, ast.Name) and k.value.id == kw for k in st.keywords)]
+        rep.instance(rule, f'{fq}: {len(steps)} creation steps, caller properties go to step {[i + 1 for i in carriers]}')
+        for i in carriers:
+            if i > 0 and not _compensated(_stmt_of(steps[i]), f):
+                rep.violation(rule, loc(c.module, steps[i]), fq, f'caller-supplied properties are applied in creation step {i + 1} ({_step_name(steps[i])})',
+                              f'{fq} creates {", ".join(_step_name(s_) for s_ in steps[:i])} before the step that receives the caller\'s '
+                              f'**{kw}: when those properties are rejected (a misspelt keyword, a value of the wrong type) the call fails '
+                              f'but the elements already created stay in the model')
 
 
 def _stmt_of(node):
